@@ -64,7 +64,7 @@ prop(dict(
     trace=("AudioTrace.tla", "AudioTrace.cfg"),
     shards={"quick": 1, "thorough": 8},
     nontrivial=lambda c: c["len"] > 0,
-    mandatory=["exact_multiple", "remainder", "single", "empty", "nil", "opus", "opus_over_mtu", "big_exact_multiple", "big_remainder"],
+    mandatory=["exact_multiple", "remainder", "single", "empty", "nil", "opus", "opus_over_mtu", "big_exact_multiple", "big_remainder", "big_over_64k"],
     rule="TLC enumerates (kind, len 0..MaxLen, mtu 1..MaxMtu) exhaustively plus k*mtu-1/k*mtu/k*mtu+1 lengths for large MTUs, "
          "nil/empty inputs and Opus lengths; seeded random (len, mtu) pairs are added; a case is non-trivial when the input is non-empty; "
          "distinct = distinct case descriptors",
@@ -489,7 +489,8 @@ def rand_c18(seed, tier, cases=None):
             out.append(dict(fam="C18", kind="capture", t=instant(), **{"class": "rand_capture"}))
         else:
             sec = rng.choice([0, 0, rng.randint(0, 100), rng.randint(0, 2147483647)])
-            out.append(dict(fam="C18", kind="offset", d=dict(neg=rng.random() < 0.5, sec=sec, nsec=rng.randint(0, 999999999)), **{"class": "rand_offset"}))
+            nsec = rng.choice([0, 0, 500000000, rng.randint(0, 999999999), rng.randint(0, 999999999)])
+            out.append(dict(fam="C18", kind="offset", d=dict(neg=rng.random() < 0.5, sec=sec, nsec=nsec), **{"class": "rand_offset"}))
     return out
 
 
@@ -566,7 +567,7 @@ prop(dict(
     shards={"quick": 1, "thorough": 12},
     timeout={"quick": 900, "thorough": 7000},
     nontrivial=lambda c: c["kind"] == "concurrent" or c["start"] >= 65533 or c["kind"] == "random",
-    mandatory=["fixed", "fixed_wraps", "random", "concurrent_g2", "concurrent_g4", "concurrent_g16", "concurrent_g16_wraps"],
+    mandatory=["fixed", "fixed_wraps", "random", "random_many", "concurrent_g2", "concurrent_g4", "concurrent_g16", "concurrent_g16_wraps"],
     rule="TLC explores every interleaving of the PlusCal model (N clients x Ops calls + a RollOverCount reader, small modulus) and a lock-free specification mutant must violate it; "
          "on the real code: fixed start values (quick: stride 257 + boundaries, thorough: all 65536) single-threaded, random sequencers, and concurrent runs of 2/4/16 goroutines from "
          "starts {65530, 0, 32767} with RollOverCount readers (thorough: 208000 calls per run, more than three wraps); each run's hook events are replayed as model steps and every client "
@@ -637,6 +638,9 @@ def _shapes_for(kind):
 def rand_c08(seed, tier, cases=None):
     rng = random.Random(seed * 7919 + 8)
     out = []
+    for kind in C08_KINDS:
+        for shape in ("pat", _shapes_for(kind)[-1]):
+            out.append(dict(fam="C08", kind=kind, scribble=True, calls=[dict(mtu=1200, shape=shape, len=70000, salt=3)], **{"class": kind + "_giant_input"}))
     for _ in range(6000 if tier == "quick" else 80000):
         kind = rng.choice(C08_KINDS)
         calls = []
@@ -716,7 +720,7 @@ prop(dict(
 # ---------------------------------------------------------------- C11
 def rand_c11(seed, tier, cases=None):
     rng = random.Random(seed * 7919 + 11)
-    out = []
+    out = [dict(fam="C11", kind="payload", valid=True, mtu=1200, pidon=True, startid=300, frames=[dict(len=70000, salt=3, fillv=-1)], **{"class": "giant_frame"})]
     for _ in range(1500 if tier == "quick" else 20000):
         mtu = rng.choice([5, 6, 7, 9, 13, 50, 200, 1200, rng.randint(5, 1500)])
         frames = [dict(len=rng.choice([1, 2, mtu - 4, mtu - 3, mtu - 1, mtu, mtu + 1, 2 * mtu, rng.randint(1, 3 * mtu), rng.randint(1, 15 * mtu) if mtu < 150 else 300]), salt=rng.randint(0, 200), fillv=rng.choice([-1, -1, -1, 255, 0, rng.randint(0, 255)])) for _ in range(rng.randint(1, 9))]
@@ -748,11 +752,21 @@ prop(dict(
 
 # ---------------------------------------------------------------- C10 / C15
 def _nal(t, nri, n, rng):
-    body = [rng.randint(1, 255) for _ in range(n - 1)]
-    # isolated zero bytes are legal inside a NAL unit (no 00 00 0x, no trailing zero)
-    for i in range(len(body) - 1):
-        if rng.random() < 0.08 and (i == 0 or body[i - 1] != 0):
-            body[i] = 0
+    """A NAL unit whose body may contain zeros and ones in any arrangement that is legal inside a
+    NAL unit (never 00 00 00/01/02, no trailing zero)."""
+    if rng.random() < 0.35:
+        body = [rng.choice([0, 0, 1, 1, 2, 3, 255, rng.randint(0, 255)]) for _ in range(n - 1)]
+    else:
+        body = [rng.randint(1, 255) for _ in range(n - 1)]
+        for i in range(len(body) - 1):
+            if rng.random() < 0.08:
+                body[i] = 0
+    for i in range(2, len(body)):
+        if body[i - 2] == 0 and body[i - 1] == 0 and body[i] <= 2:
+            body[i] = 3
+    # the first body byte follows the NAL header byte (non-zero), the last must not be zero
+    if body and body[-1] == 0:
+        body[-1] = 7
     return [nri << 5 | t] + body
 
 
@@ -807,15 +821,26 @@ prop(dict(
     assumptions=COMMON_ASSUME + ["unit bytes contain no zero byte (Annex-B well-formedness the splitter relies on); parameter sets come as SPS/PPS pairs"],
 ))
 
+def rand_c15(seed, tier, cases=None):
+    """Loss histories the enumerated frames do not reach: an abandoned unit of 100 000 bytes (more than
+    64 KiB buffered), with every fragment but the last / but the first delivered (mask -1 / -2)."""
+    out = []
+    for kind, pk, shape in (("h264", "h264", "h264_slice"), ("h264_avc", "h264", "h264_slice"), ("av1", "av1", "obu_frame_only")):
+        for mask in (-1, -2):
+            out.append(dict(fam="C15", kind=kind, a=dict(src="feed", feed=dict(pkind=pk, shape=shape, len=100000, salt=1, mtu=1200)), mask=mask, garbage=[], after=[],
+                            b=dict(src="feed", feed=dict(pkind=pk, shape=shape, len=3000, salt=2, mtu=1200)), wellformed_b=True, **{"class": kind + "_giant_abandoned_unit"}))
+    return out
+
+
 prop(dict(
-    id="C15", fam="C15",
+    id="C15", fam="C15", rand=rand_c15,
     mc=[("H264MC.tla", "H264MC.cfg", {}), ("H264MC.tla", "H264MCNoResync.cfg", {}, "expect_violation")],
     gen=[("LossGen.tla", "LossGen.cfg", {"thorough": {"MaxA": "10", "Rich": "TRUE"}})],
     trace=("LossTrace.tla", "LossTrace.cfg"),
     shards={"quick": 2, "thorough": 14},
     workers=16,
     nontrivial=lambda c: c["mask"] not in (0,),
-    mandatory=["h264_fu2_a", "h264_fu3_a", "h264_fu5_a", "h264_fu5_a_garbage", "h264_unfragmented_a", "av1_real_payloader", "av1_real_payloader_garbage", "h264_real_payloader", "h264_avc_real_payloader"],
+    mandatory=["h264_giant_abandoned_unit", "av1_giant_abandoned_unit", "h264_fu2_a", "h264_fu3_a", "h264_fu5_a", "h264_fu5_a_garbage", "h264_unfragmented_a", "av1_real_payloader", "av1_real_payloader_garbage", "h264_real_payloader", "h264_avc_real_payloader"],
     rule="TLC enumerates every delivered subset (mask) of frame A's packets (up to MaxA = 6 quick / 10 thorough packets) x frame A shapes (FU-A of 2/3/5/MaxA fragments, single, STAP-A, "
          "two fragmented units) x garbage prefixes x intact frame B shapes (FU-A, single, STAP-A + FU-A) for H264 in Annex-B and AVC mode from the independent encoder, and the same masks "
          "over frames produced by the real AV1 and H264 payloaders; the loss invariant is model-checked on the reference receiver and a no-resync specification mutant must violate it; "
@@ -828,6 +853,9 @@ prop(dict(
 def rand_c12(seed, tier, cases=None):
     rng = random.Random(seed * 7919 + 12)
     out = []
+    for flex in (True, False):
+        hdr = dict(profile=0, existing=False, idx=0, nonkey=False, show=True, errres=False, deep=False, cs=2, range=False, ssx=True, ssy=True, w=1280, h=720)
+        out.append(dict(fam="C12", kind="payload", valid=True, mtu=1200, flexible=flex, startid=300, frames=[dict(hdr=hdr, body=70000, salt=5, fillv=-1)], **{"class": "giant_frame"}))
     for _ in range(1200 if tier == "quick" else 15000):
         mtu = rng.choice([12, 13, 15, 20, 64, 200, 1200, rng.randint(12, 1500)])
         frames = []
@@ -869,6 +897,10 @@ prop(dict(
 def rand_c14(seed, tier, cases=None):
     rng = random.Random(seed * 7919 + 14)
     out = []
+    def unit(t, n):
+        return [t << 1, 1] + [(i * 7) % 250 + 1 for i in range(n - 2)]
+    for mtu, units in ((1200, [unit(32, 24), unit(19, 66236)]), (1200, [unit(19, 70000)]), (65535, [unit(1, 65536)]), (65535, [unit(33, 9), unit(1, 65534)])):
+        out.append(dict(fam="C14", kind="payload", valid=True, mtu=mtu, donl=False, skipagg=False, calls=[dict(units=units, scs=[4] * len(units))], **{"class": "giant_unit"}))
     for _ in range(2000 if tier == "quick" else 20000):
         mtu = rng.choice([4, 5, 6, 7, 9, 13, 20, 50, 100, 1200, rng.randint(4, 300)])
         units = []
@@ -930,6 +962,9 @@ def _obu_stream(obus):
 def rand_c13(seed, tier, cases=None):
     rng = random.Random(seed * 7919 + 13)
     out = []
+    big = [dict(type=6, ext=False, tid=0, sid=0, r3=0, r1=0, hassize=True, payload=[(i * 7) % 251 for i in range(70000)]),
+           dict(type=6, ext=False, tid=0, sid=0, r3=0, r1=0, hassize=True, payload=[1, 2, 3])]
+    out.append(dict(fam="C13", kind="payload", valid=True, mtu=1200, obus=big, stream=_obu_stream(big), **{"class": "giant_obu"}))
     for _ in range(1200 if tier == "quick" else 15000):
         mtu = rng.choice([2, 3, 4, 5, 7, 16, 64, 129, 130, 131, 200, 1200, rng.randint(2, 400)])
         n = rng.randint(1, 8 if tier == "thorough" else 5)
